@@ -475,7 +475,7 @@ is_constructible(const CPPType *given_type) const {
         ref_type->_value_category == CPPReferenceType::VC_rvalue) {
       return is_move_constructible(V_public);
     } else {
-      return is_copy_constructible(V_public);
+      return is_copy_constructible(V_public, base_type->is_const());
     }
   }
 
@@ -704,10 +704,47 @@ is_default_constructible(CPPVisibility min_vis) const {
  * Returns true if a copy constructor of at least the given visibility is
  * available.  This does not consider whether the class is abstract, since an
  * abstract class can still be copied as a base class sub-object.
+ *
+ * If from_const is true, the object to copy is const, so that a copy
+ * constructor taking a non-const reference is of no use.
  */
 bool CPPStructType::
-is_copy_constructible(CPPVisibility min_vis) const {
-  CPPInstance *constructor = get_copy_constructor();
+is_copy_constructible(CPPVisibility min_vis, bool from_const) const {
+  // Find the user-declared copy constructor that accepts the object.  There
+  // may be one taking a const reference and one taking a non-const reference.
+  CPPInstance *constructor = nullptr;
+  bool any_declared = false;
+  CPPFunctionGroup *fgroup = get_constructor();
+  if (fgroup != nullptr) {
+    for (CPPInstance *inst : fgroup->_instances) {
+      assert(inst->_type != nullptr);
+      CPPFunctionType *ftype = inst->_type->as_function_type();
+      assert(ftype != nullptr);
+
+      if ((ftype->_flags & CPPFunctionType::F_copy_constructor) == 0) {
+        continue;
+      }
+      any_declared = true;
+
+      CPPReferenceType *ref_type =
+        ftype->_parameters->_parameters[0]->_type->as_reference_type();
+      if (ref_type == nullptr || ref_type->_pointing_at->is_const()) {
+        // This one accepts any object, but the other is a better match for a
+        // non-const object.
+        if (constructor == nullptr) {
+          constructor = inst;
+        }
+      } else if (!from_const) {
+        constructor = inst;
+      }
+    }
+  }
+
+  if (any_declared && constructor == nullptr) {
+    // The copy constructor only accepts non-const objects.
+    return false;
+  }
+
   if (constructor != nullptr) {
     // It has a copy constructor.
     if (constructor->_vis > min_vis) {
@@ -740,7 +777,7 @@ is_copy_constructible(CPPVisibility min_vis) const {
   std::vector<CPPStructType *> bases;
   get_constructed_bases(bases);
   for (CPPStructType *base : bases) {
-    if (!base->is_copy_constructible(V_protected)) {
+    if (!base->is_copy_constructible(V_protected, from_const)) {
       return false;
     }
     // As above, the destructor of the sub-object is potentially invoked.
@@ -763,8 +800,17 @@ is_copy_constructible(CPPVisibility min_vis) const {
     // An array member is copied element by element.
     assert(instance->_type != nullptr);
     CPPType *object_type = get_member_object_type(instance->_type);
-    if (!object_type->is_copy_constructible() ||
-        !object_type->is_destructible()) {
+    CPPStructType *object_struct = object_type->as_struct_type();
+    if (object_struct != nullptr) {
+      // A non-const member is const exactly when the object to copy is.
+      if (!object_struct->is_copy_constructible(V_public, from_const)) {
+        return false;
+      }
+    } else if (!object_type->is_copy_constructible()) {
+      return false;
+    }
+
+    if (!object_type->is_destructible()) {
       return false;
     }
   }
